@@ -16,7 +16,7 @@ from . import common
 ID = "C18"
 NEEDS_MODEL = False
 LEVEL = "fault_enumeration"
-N = {"quick": 1500, "thorough": 90000}
+N = {"quick": 2400, "thorough": 90000}
 TECHNIQUE = ("runtime monitoring with fault injection: one rule violation injected into a legal, "
              "compiling host spec; the real pipeline's exception behaviour is the observed event")
 
